@@ -25,6 +25,13 @@ impl Map {
             Map::Optional(m) => format!("{{ optional = {} }}", m.toml()),
         }
     }
+    fn json(&self) -> Value {
+        match self {
+            Map::Path(p) => json!(p),
+            Map::Sum(v) => json!({"sum": v.iter().map(|m| m.json()).collect::<Vec<_>>()}),
+            Map::Optional(m) => json!({"optional": m.json()}),
+        }
+    }
     fn eval(&self, r: &Value) -> Result<Value, ()> {
         match self {
             Map::Path(p) => {
@@ -72,6 +79,24 @@ fn gen_mapping(rng: &mut Rng, uses_time: bool) -> Vec<(String, Map)> {
     let k = rng.urange(1, pool.len());
     cols.extend(pool.into_iter().take(k));
     rng.shuffle(&mut cols);
+    // column names in mixed case and with digits / '_' / '-' so that byte order, case-folded order and
+    // declaration order all differ (bare TOML keys; names stay distinct after case folding)
+    if rng.chance(0.6) {
+        for (i, (name, _)) in cols.iter_mut().enumerate() {
+            let base = name.clone();
+            *name = match rng.below(6) {
+                0 => base,
+                1 => base.to_uppercase(),
+                2 => {
+                    let mut c = base.chars();
+                    c.next().map(|f| f.to_uppercase().collect::<String>() + c.as_str()).unwrap_or_default()
+                }
+                3 => format!("Z{i}_{base}"),
+                4 => format!("{}-{base}", i % 3),
+                _ => format!("_{base}"),
+            };
+        }
+    }
     cols
 }
 
@@ -119,8 +144,11 @@ fn case(tier: Tier, case_no: usize, rng: &mut Rng, rep: &mut Report) {
     let filename = dir_probe.join(if csv_mode { "responses.csv" } else { "responses.ndjson" }).to_string_lossy().to_string();
     let file_policy = OutputPolicy::File { filename: filename.clone(), format: format.clone(), flush_rate: flush };
     let combined = rng.chance(0.15);
+    // a csv policy is given either in the TOML (whose configuration layer folds keys, hence column names, to lower
+    // case) or per run as JSON (names kept as written) - for all runs of the case, since they share one header
+    let csv_per_run = csv_mode && !combined && rng.chance(0.5);
     let second = dir_probe.join("second.ndjson").to_string_lossy().to_string();
-    spec.output = if combined { OutputPolicy::Combined(vec![file_policy.clone(), OutputPolicy::File { filename: second.clone(), format: OutputFormat::Ndjson, flush_rate: None }]) } else { file_policy.clone() };
+    spec.output = if csv_per_run { OutputPolicy::None } else if combined { OutputPolicy::Combined(vec![file_policy.clone(), OutputPolicy::File { filename: second.clone(), format: OutputFormat::Ndjson, flush_rate: None }]) } else { file_policy.clone() };
     let built = match catch(|| build_app(&spec, "c19")) {
         Ok(Ok(b)) => b,
         Ok(Err(e)) => {
@@ -178,6 +206,11 @@ fn case(tier: Tier, case_no: usize, rng: &mut Rng, rep: &mut Report) {
         let mut cfg = json!({"parallelism": par});
         if !csv_mode && !combined && rng.chance(0.5) {
             cfg["response_output_policy"] = policy_json(&file_policy);
+        }
+        if csv_per_run {
+            let mut pj = policy_json(&file_policy);
+            pj["format"] = json!({"type": "csv", "sorted": sorted, "mapping": Value::Object(mapping.iter().map(|(k, m)| (k.clone(), m.json())).collect())});
+            cfg["response_output_policy"] = pj;
         }
         let out = catch(|| built.app.run(perm.clone(), Some(&cfg)));
         set_app_sink(None);
@@ -253,12 +286,19 @@ fn case(tier: Tier, case_no: usize, rng: &mut Rng, rep: &mut Report) {
                     // sorted: alphabetical header. otherwise the order is whatever the configuration layer hands
                     // over (an inline TOML table has no guaranteed order); the statement only requires the rows to
                     // follow the header, so any permutation of the configured columns is a valid header
-                    let mut expect_header: Vec<String> = mapping.iter().map(|c| c.0.clone()).collect();
+                    // the TOML configuration layer folds keys - hence column names - to lower case in some positions
+                    // (not inside an array of policies); a policy given per run keeps them. names are therefore matched
+                    // up to ASCII case (they are distinct after folding by construction) unless given per run, and
+                    // "sorted" is judged on the names the file actually carries
+                    let fold = |s: &String| if csv_per_run { s.clone() } else { s.to_lowercase() };
+                    let mut expect_header: Vec<String> = mapping.iter().map(|c| fold(&c.0)).collect();
                     expect_header.sort();
+                    let mut header_folded: Vec<String> = header.iter().map(fold).collect();
+                    header_folded.sort();
                     let mut header_sorted = header.clone();
                     header_sorted.sort();
-                    let header_ok = if sorted { header == expect_header } else { header_sorted == expect_header };
-                    let cols: Vec<(String, Map)> = header.iter().filter_map(|h| mapping.iter().find(|(k, _)| k == h).cloned()).collect();
+                    let header_ok = header_folded == expect_header && (!sorted || header == header_sorted);
+                    let cols: Vec<(String, Map)> = header.iter().filter_map(|h| mapping.iter().find(|(k, _)| fold(k) == fold(h)).cloned()).collect();
                     if !header_ok || cols.len() != header.len() {
                         rep.violate("C19|file|csv-header", format!("W4 header {header:?}, configured columns {expect_header:?}"), replay);
                     } else if rows.iter().any(|r| r == &header) {
@@ -269,7 +309,7 @@ fn case(tier: Tier, case_no: usize, rng: &mut Rng, rep: &mut Report) {
                         rep.violate("C19|file|csv-row-count", format!("W2 {} rows for {} responses written over {repeats} runs", rows.len(), rows_expected), replay);
                     } else {
                         // W2 bijection on qid and W4 cell values
-                        let qi = header.iter().position(|h| h == "qid").unwrap_or(0);
+                        let qi = header.iter().position(|h| h.to_lowercase().ends_with("qid")).unwrap_or(0);
                         let mut want: BTreeMap<String, Vec<Vec<String>>> = BTreeMap::new();
                         for r in &sink_refs {
                             let cells: Vec<String> = cols.iter().map(|(_, m)| m.eval(r).map(|v| cell_text(&v)).unwrap_or_default()).collect();
